@@ -91,6 +91,20 @@ def _enumerate(eng, node, x, start=0):
 
 @reg("builtins.zip")
 def _zip(eng, node, *xs):
+    from .engine import SymRange, SListKeyed
+    from .types import SODict
+    if len(xs) == 2 and any(isinstance(x, (SymRange, SODict)) or (isinstance(x, SList) and x.items is None) for x in xs):
+        # symbolic lengths: the list of pairs, as long as the shorter argument
+        seqs = [eng.as_sequence(x) for x in xs]
+        n = z3.If(seqs[0].n <= seqs[1].n, seqs[0].n, seqs[1].n)
+        t = TTuple(seqs[0].t, seqs[1].t)
+        if isinstance(xs[0], SODict):
+            d = xs[0]
+            out = SListKeyed(t, n, list(seqs[0].comps) + list(seqs[1].comps))
+            out.member = lambda x: z3.And(z3.Select(d.dom, x), d.pos[x] < n)      # noqa: E731
+            out.inv = lambda x: d.pos[x]                                          # noqa: E731
+            return out
+        return SList(t, n, list(seqs[0].comps) + list(seqs[1].comps))
     cols = [eng.concrete_or_fail(x) for x in xs]
     return CList(list(zip(*cols)))
 
@@ -323,6 +337,14 @@ def _dict(eng, node, x=None, **kw):
         return dict(kw)
     if isinstance(x, dict):
         return dict(x, **kw)
+    from .engine import SListKeyed
+    if isinstance(x, SListKeyed) and not kw and len(x.t.ts) == 2:
+        # dict(zip(keys of an ordered dict, values)): the keys are distinct, entry of key x sits at index inv(x)
+        kt, vt = x.t.ts
+        nk = len(kt.sorts())
+        kx = z3.Const("_dk", key_sort_of(kt))
+        val = vt.unflat([c[x.inv(kx)] for c in x.comps[nk:]])
+        return SDict(kt, vt, z3.Lambda([kx], x.member(kx)), [z3.Lambda([kx], f) for f in vt.flat(val)])
     raise Unsupported("dict() of symbolic data")
 
 
@@ -919,6 +941,49 @@ def _nx_get_node_attributes(eng, node, graph, name):
     else:
         dom, val, vt = nd.dom, f, ft
     return SDict(nd.k, vt, dom, [z3.Lambda([kx], x) for x in vt.flat(val)])
+
+
+@reg("networkx.Graph")
+def _nx_graph(eng, node, *a, **kw):
+    from .engine import GraphNew
+    if a or kw:
+        raise Unsupported("networkx.Graph(...) with arguments")
+    return GraphNew()
+
+
+@reg("networkx.set_node_attributes")
+def _nx_set_node_attributes(eng, node, graph, values, name=None):
+    """nx.set_node_attributes(G, values, name): a dict sets the attribute on the nodes of G it has as keys, anything else on all nodes"""
+    from .engine import is_path
+    if not (isinstance(graph, Rec) and "nodes" in graph.fields and isinstance(name, str)):
+        raise Unsupported("set_node_attributes on something that is not a modelled graph")
+    nd = graph.fields["nodes"]
+    if name not in nd.v.fields:
+        raise Unsupported(f"set_node_attributes: the node record has no field {name!r}")
+    if node is None or not node.args or not is_path(node.args[0]):
+        raise Unsupported("set_node_attributes on a graph expression that is not a path")
+    ks = key_sort_of(nd.k)
+    kx = z3.Const("_sna", ks)
+    attrs = nd.v.unflat([c[kx] for c in nd.comps])
+    ft = nd.v.fields[name]
+    if isinstance(values, SDict):
+        hit = z3.And(z3.Select(nd.dom, kx), z3.Select(values.dom, kx))
+        newv = values.v.unflat([c[kx] for c in values.comps])
+    elif isinstance(values, (dict, list, tuple, CList)) or (isinstance(values, Rec)):
+        raise Unsupported("set_node_attributes with this kind of values")
+    else:
+        hit, newv = z3.Select(nd.dom, kx), values
+    cur = attrs.fields[name]
+    if type(ft).__name__ == "TOpt":
+        new_field = Opt(z3.If(hit, False, cur.none), ft.t.unflat([z3.If(hit, a, b) for a, b in zip(ft.t.flat(newv), ft.t.flat(cur.val))]))
+    else:
+        new_field = ft.unflat([z3.If(hit, a, b) for a, b in zip(ft.flat(newv), ft.flat(cur))])
+    new_attrs = attrs.with_field(name, new_field)
+    comps = [z3.Lambda([kx], f) for f in nd.v.flat(new_attrs)]
+    from .types import SODict
+    new_nd = SODict(nd.k, nd.v, nd.dom, comps, nd.order, nd.pos) if isinstance(nd, SODict) else type(nd)(nd.k, nd.v, nd.dom, comps)
+    eng.write_path(eng.lvalue(node.args[0]), graph.with_field("nodes", new_nd))
+    return None
 
 
 @reg("vermouth.molecule.Interaction")
